@@ -155,6 +155,14 @@ func (st *State) primitive(f *ssa.Function, args []Val, site ssa.Instruction) (V
 			st.guardCheck(p, false, site, false)
 			tv := st.load(p, false).(TV)
 			tv.Typ = resT()
+			if vc.mode == "B2" && st.nonnil["b2added:"+lockKeyOf(p)] && at != "Bool" && at != "Value" {
+				// B2-lite: a counter this path has just changed with an atomic Add is one that other goroutines change the same way;
+				// a Load after the Add no longer tells what this path's own Add did: it returns the known value or an arbitrary other one
+				interf := st.declare("load.interf", SBool)
+				other := st.declare("load.other", SInt)
+				st.assumeRange(other, resT())
+				tv.T = st.define("load.cur", tIte(interf, other, tv.T))
+			}
 			vc.runGhostLoad(st, p)
 			return tv, true
 		case "Store":
@@ -173,6 +181,7 @@ func (st *State) primitive(f *ssa.Function, args []Val, site ssa.Instruction) (V
 			st.nonnil["rg:"+nv.S] = true
 			st.assumeRange(nv, resT())
 			st.store(p, TV{nv, p.Elem})
+			st.nonnil["b2added:"+lockKeyOf(p)] = true
 			vc.runGhostStore(st, p)
 			return TV{nv, resT()}, true
 		case "CompareAndSwap":
